@@ -158,4 +158,77 @@ def wfAliasItems (pre : Str) (i : Nat) : List Val → Bool
   | v :: rest => wfAlias (subPre pre (dec i)) v && wfAliasItems pre (i + 1) rest
 end
 
+/-! ## `backport_all_constants` -/
+
+abbrev constMark : Str := cs!"/_type=Constant"
+
+def isScalarField : Str × Val → Bool
+  | (_, .scalar _ _) => true
+  | _ => false
+
+/-- A `Constant` whose first field is the scalar `value`: its repr, kind and remaining fields. -/
+def constShape (ty : Str) (fs : List (Str × Val)) : Option (Str × Kind × List (Str × Val)) :=
+  if ty == cs!"Constant" then
+    match fs with
+    | (n, .scalar rv k) :: rest => if n == cs!"value" then some (rv, k, rest) else none
+    | _ => none
+  else none
+
+mutual
+/-- Tree-level `backport_all_constants`: a `Constant` is renamed after the *text* of its value
+(`constantKindOfRepr`, as the code does) and its `value` field is renamed `s` / `n` / `value`, or dropped
+for `Ellipsis`. -/
+def backportTree : Val → Val
+  | .node ty e r ln fs =>
+    match constShape ty fs with
+    | some (rv, k, rest) =>
+      let kd := constantKindOfRepr rv
+      .node kd.1 e r ln ((match kd.2 with
+        | some f => [(f, .scalar rv k)]
+        | none => []) ++ rest)
+    | none => .node ty e r ln (backportFields fs)
+  | .list q xs => .list q (backportItems xs)
+  | .scalar r k => .scalar r k
+def backportFields : List (Str × Val) → List (Str × Val)
+  | [] => []
+  | (n, v) :: rest => (n, backportTree v) :: backportFields rest
+def backportItems : List Val → List Val
+  | [] => []
+  | v :: rest => backportTree v :: backportItems rest
+end
+
+def nameOk (n : Str) : Bool := !n.contains '=' && !n.contains '/'
+
+mutual
+/-- Local clauses for `backport_all_constants`. -/
+def wfBackport (pre : Str) : Val → Bool
+  | .node ty e _ ln fs =>
+    !ty.contains '=' && (fs.map (·.1)).all nameOk && decide (fs.map (·.1)).Nodup &&
+      (if ty == cs!"Constant" then
+        match constShape ty fs with
+        | some (rv, _, rest) => !rv.isEmpty && rest.all isScalarField && (e || ln.isSome)
+        | none => false
+       else true) &&
+      wfBackportFields pre fs
+  | .list _ xs => wfBackportItems pre 1 xs
+  | .scalar r _ => !constMark.isSuffixOf (scalarLine pre r)
+def wfBackportFields (pre : Str) : List (Str × Val) → Bool
+  | [] => true
+  | (n, v) :: rest => wfBackport (subPre pre n) v && wfBackportFields pre rest
+def wfBackportItems (pre : Str) (i : Nat) : List Val → Bool
+  | [] => true
+  | v :: rest => wfBackport (subPre pre (dec i)) v && wfBackportItems pre (i + 1) rest
+end
+
+/-! ## The first four passes, staged -/
+
+/-- The tree after the first three / four tree-level tweaks, in pipeline order. -/
+def stage3 (t : Val) : Val := quietPosonly [] (dropAliasPos false (dropKinds false t))
+def stage4 (t : Val) : Val := backportTree (stage3 t)
+
+/-- The local clauses of the first four passes, each on the tree its pass receives. -/
+def wfStages4 (t : Val) : Bool :=
+  wfKinds t && wfAlias [] (dropKinds false t) && wfPosonly [] (dropAliasPos false (dropKinds false t)) &&
+    wfBackport [] (stage3 t)
+
 end Paroxy.Flat
